@@ -546,6 +546,9 @@ func (h *HTTPClient) Close() { h.c.Close() }
 
 // ScratchLog returns a log file path inside dir.
 func ScratchLog(dir string) string {
+	if p := os.Getenv("VERIF_MOSN_LOG"); p != "" { // debugging aid
+		return p
+	}
 	os.MkdirAll(dir, 0o755)
 	return dir + "/mosn.log"
 }
